@@ -169,6 +169,9 @@ pub struct Node {
     pub bytes: Vec<u8>,
     /// the complete text formatting this file alone gives (None: it does not parse)
     pub expected: Option<String>,
+    /// the job that formats this (healthy) file alone did not come back clean (timeout, worker trouble): what
+    /// the file should become is not known, a change of it is inconclusive
+    pub expected_unknown: bool,
     pub id: usize,
 }
 
@@ -227,6 +230,7 @@ fn new_node(name: String, decl: Decl, rng: &mut Rng) -> Node {
         attr_path: String::new(),
         bytes: vec![],
         expected: None,
+        expected_unknown: false,
         id: 0,
     }
 }
@@ -842,10 +846,14 @@ pub fn oracles(case: &Case, ev: &Eval) -> Vec<(String, String)> {
     let mut f = vec![];
     // expected complete texts
     let mut expected: BTreeMap<String, Option<&String>> = BTreeMap::new();
+    let mut unknown: std::collections::BTreeSet<String> = Default::default();
     for r in &case.roots {
         if let Root::Crate(c) = r {
             for n in &c.nodes {
                 expected.insert(format!("{}/{}", c.dir, n.rel.display()), n.expected.as_ref());
+                if n.expected_unknown {
+                    unknown.insert(format!("{}/{}", c.dir, n.rel.display()));
+                }
             }
         }
     }
@@ -898,6 +906,7 @@ pub fn oracles(case: &Case, ev: &Eval) -> Vec<(String, String)> {
                 } else {
                     match expected.get(k) {
                         Some(Some(e)) if e.as_bytes() == &v[..] => {}
+                        Some(None) if unknown.contains(k) => {}
                         _ => f.push(("c05:file-replaced-by-something-else-than-its-formatted-text".to_string(), format!("{} ({} -> {} bytes)", k, b.len(), v.len()))),
                     }
                 }
@@ -1507,6 +1516,7 @@ pub fn fill_expected(cases: &mut [Case], o: &mut Outcome) {
                 } else {
                     o.count("single-file-format:not-clean");
                     c.nodes[*ni].expected = None;
+                    c.nodes[*ni].expected_unknown = true;
                 }
             }
         }
